@@ -76,15 +76,73 @@ def lock_like(v):
     return hasattr(v, "acquire") and hasattr(v, "release") and not isinstance(v, (DetectingLock,)) and type(v).__name__ != "SchedLock"
 
 
-def wrap_all_locks(obj, factory, prefix=None):
-    """Replace every lock-like instance attribute of `obj` (anything with acquire/release: Lock, RLock, Condition, ...) by
-    `factory(inner, name)`. Works whatever the attributes are called, so a renamed or additional lock is still observed.
-    Returns the list of wrappers."""
+def _instance_fields(obj):
+    """(name, value) of every instance field, for ordinary objects and for __slots__ objects alike."""
+    seen = set()
+    d = getattr(obj, "__dict__", None)
+    if isinstance(d, dict):
+        for name, v in list(d.items()):
+            seen.add(name)
+            yield name, v
+    for klass in type(obj).__mro__:
+        slots = klass.__dict__.get("__slots__", ())
+        if isinstance(slots, str):
+            slots = (slots,)
+        for name in slots:
+            if name in seen or name in ("__dict__", "__weakref__"):
+                continue
+            seen.add(name)
+            try:
+                yield name, getattr(obj, name)
+            except AttributeError:
+                continue
+
+
+def _private_helper(owner, name, v):
+    """A private helper object of the library held by `owner`: its class is private (leading underscore), or it is defined in the
+    owner's own module and kept in a private field. Public collaborators (a shared store, agents, another organelle) are NOT descended
+    into: the checks wrap those themselves."""
+    mod = getattr(type(v), "__module__", "") or ""
+    if not mod.startswith("operon_ai") or isinstance(v, (type, BaseException)) or callable(v):
+        return False
+    return type(v).__name__.startswith("_") or (mod == type(owner).__module__ and name.startswith("_"))
+
+
+def wrap_all_locks(obj, factory, prefix=None, depth=2, _seen=None):
+    """Replace every lock-like instance field of `obj` (anything with acquire/release: Lock, RLock, Condition, ...) by
+    `factory(inner, name)`. Works whatever the fields are called and wherever the object keeps them: plain attributes, __slots__,
+    and - up to `depth` levels down - private helper objects of the library that the instance holds (a refactoring that moves the lock
+    into a `_State` / `_Ledger` helper is still observed; a property on the outer class that returns the helper's lock then returns the
+    wrapper). Returns the list of wrappers."""
     out = []
     prefix = prefix or type(obj).__name__
-    for name, v in list(vars(obj).items()):
+    _seen = _seen if _seen is not None else set()
+    if id(obj) in _seen:
+        return out
+    _seen.add(id(obj))
+    for name, v in list(_instance_fields(obj)):
         if lock_like(v):
+            if getattr(v, "_rv_wrapper", False):
+                continue
             w = factory(v, "%s.%s" % (prefix, name))
-            setattr(obj, name, w)
+            try:
+                w._rv_wrapper = True
+            except Exception:  # noqa
+                pass
+            try:
+                setattr(obj, name, w)
+            except Exception:  # noqa  (read-only field: leave it, the scheduler's watchdog will say so)
+                continue
             out.append(w)
+        elif depth > 0 and _private_helper(obj, name, v):
+            out.extend(wrap_all_locks(v, factory, "%s.%s" % (prefix, name), depth - 1, _seen))
     return out
+
+
+def replace_wrapper(root, wrapper_name, new):
+    """Put `new` where wrap_all_locks put the wrapper called `wrapper_name` ("<prefix>.<field>" or "<prefix>.<helper>.<field>")."""
+    path = wrapper_name.split(".")[1:]
+    obj = root
+    for part in path[:-1]:
+        obj = getattr(obj, part)
+    setattr(obj, path[-1], new)
